@@ -6,12 +6,12 @@ import LlgoVerif.Spec.SysV
     Types: `b h w q p f d` = i8 i16 i32 i64 ptr float double; `{..}` struct; `[N T]` array; `v` = no result.
 
     cls T | clsret T      model of GetTypeInfo: `<kind> size=S align=A n=N off2=O`   (same format as harness/c09)
-    clsfix T | clsretfix T  the same for the repaired classifier of fixes/C09-1.diff
+    clslegacy T | clsretlegacy T  the same for the classifier before the nested-padding fix (Cfg.legacy)
     judge T <kind>        is the given pass kind sound against the psABI specification?  `sound` | `unsound`
     spec T                psABI class: `none` | `memory` | `regs INTEGER SSE ..`  + ` natural=0|1`
     sig R P..             model of transformFuncType: `ret=.. params=..`              (same format as harness/c09)
     place R P..           `impl=<placement> spec=<placement> eq=0|1 fits=0|1 nosplit=0|1 natural=0|1`
-    sigfix / placefix     the same with the repaired classifier
+    siglegacy / placelegacy  the same with the legacy classifier
     cstr DEST LEN HEX     CStrCopy into a dirty memory of LEN bytes at DEST, then StringFromCStr: `ok HEX` | `oob`
 -/
 open LlgoVerif LlgoVerif.Util LlgoVerif.CAbi LlgoVerif.SysV
@@ -84,8 +84,8 @@ def parseKind : List String → Option PassKind
   | ["coerce2", a, b] => do pure (.coerce2 (← parseRegTy a) (← parseRegTy b))
   | _ => none
 
-def clsLine (t : CType) (isRet : Bool) (fixed : Bool := false) : String :=
-  let k := if fixed then classifyV t.view isRet else classifyLegacy t isRet
+def clsLine (t : CType) (isRet : Bool) (cfg : Cfg := .repaired) : String :=
+  let k := classifyC cfg t.view isRet
   let o := match k with
     | .coerce2 a b => if k.wellFormed then toString (off2 a b) else "-"
     | _ => "-"
@@ -99,7 +99,7 @@ def specLine (t : CType) : String :=
     | .none => "none"
     | .memory => "memory"
     | .regs cs => "regs " ++ " ".intercalate (cs.map className)
-  c ++ " natural=" ++ (if decide t.view.natural then "1" else "0")
+  c ++ " wf=" ++ (if t.wf then "1" else "0") ++ " natural=" ++ (if decide t.view.natural then "1" else "0")
 
 def largName : LArg → String
   | .scalar r => regTyName r
@@ -138,12 +138,16 @@ def parseSig (ws : List String) : Option Sig :=
       if r = "v" then some ⟨none, pts⟩
       else (parseType r).map fun t => ⟨some t, pts⟩
 
+def placeLine (i : Placement) (s : Sig) : String :=
+  let p := place s
+  s!"impl={placementName i} spec={placementName p} eq={b01 (decide (i = p))} fits={b01 (fitsInRegs s)} nosplit={b01 (noSplit s)} natural={b01 (decide ((∀ t ∈ s.ret, t.view.natural) ∧ ∀ t ∈ s.params, t.view.natural))} wf={b01 (decide ((∀ t ∈ s.ret, t.wf = true) ∧ ∀ t ∈ s.params, t.wf = true))}"
+
 def handle (line : String) : String :=
   match fields line with
   | ["cls", t] => match parseType t with | some t => clsLine t false | none => "bad-op"
   | ["clsret", t] => match parseType t with | some t => clsLine t true | none => "bad-op"
-  | ["clsfix", t] => match parseType t with | some t => clsLine t false true | none => "bad-op"
-  | ["clsretfix", t] => match parseType t with | some t => clsLine t true true | none => "bad-op"
+  | ["clslegacy", t] => match parseType t with | some t => clsLine t false .legacy | none => "bad-op"
+  | ["clsretlegacy", t] => match parseType t with | some t => clsLine t true .legacy | none => "bad-op"
   | ["spec", t] => match parseType t with | some t => specLine t | none => "bad-op"
   | "judge" :: t :: k =>
     match parseType t, parseKind k with
@@ -151,25 +155,19 @@ def handle (line : String) : String :=
     | _, _ => "bad-op"
   | "sig" :: ws =>
     match parseSig ws with
-    | some s => sigLine classifyLegacyV s.ret s.params
-    | none => "bad-op"
-  | "sigfix" :: ws =>
-    match parseSig ws with
     | some s => sigLine classifyV s.ret s.params
     | none => "bad-op"
-  | "placefix" :: ws =>
+  | "siglegacy" :: ws =>
     match parseSig ws with
-    | some s =>
-      let i := implPlaceC classifyV s
-      let p := place s
-      s!"impl={placementName i} spec={placementName p} eq={b01 (decide (i = p))} fits={b01 (fitsInRegs s)} nosplit={b01 (noSplit s)} natural={b01 (decide ((∀ t ∈ s.ret, t.view.natural) ∧ ∀ t ∈ s.params, t.view.natural))}"
+    | some s => sigLine classifyLegacyV s.ret s.params
     | none => "bad-op"
   | "place" :: ws =>
     match parseSig ws with
-    | some s =>
-      let i := implPlace s
-      let p := place s
-      s!"impl={placementName i} spec={placementName p} eq={b01 (decide (i = p))} fits={b01 (fitsInRegs s)} nosplit={b01 (noSplit s)} natural={b01 (decide ((∀ t ∈ s.ret, t.view.natural) ∧ ∀ t ∈ s.params, t.view.natural))}"
+    | some s => placeLine (implPlace s) s
+    | none => "bad-op"
+  | "placelegacy" :: ws =>
+    match parseSig ws with
+    | some s => placeLine (implPlaceC classifyLegacyV s) s
     | none => "bad-op"
   | ["cstr", d, n, h] =>
     match unhex h with
